@@ -64,6 +64,7 @@ def _to_meshio_cell_type_and_ordering(cell_type: CellType, connectivity: ndarray
         return str(cell_type), reordered
 
     # meshio does not support pixels/voxels -> use quads/hexes
+    reordered = connectivity.copy()
     if cell_type == CellTypes.pixel:
         cell_type = CellTypes.quad
         for i in range(len(connectivity)):
